@@ -18,7 +18,7 @@
 
 use poulpy_hal::{
     api::{ModuleLogN, ScratchAvailable, VecZnxNormalizeTmpBytes},
-    layouts::{Backend, CyclotomicOrder, GaloisElement, Module, Scratch, VecZnx, galois_element},
+    layouts::{Backend, CyclotomicOrder, GaloisElement, Module, Scratch, galois_element},
 };
 
 pub use crate::api::GLWETrace;
@@ -59,6 +59,31 @@ where
         trace_galois_elements(self.log_n(), self.cyclotomic_order())
     }
 
+    /// Scratch needed by [`Self::glwe_trace_assign_default`] on a ciphertext laid out like `res_infos`.
+    fn glwe_trace_assign_tmp_bytes_default<R, K>(&self, res_infos: &R, key_infos: &K) -> usize
+    where
+        R: GLWEInfos,
+        K: GGLWEInfos,
+    {
+        if res_infos.base2k() != key_infos.base2k() {
+            // res is first re-normalized into the key's base2k and the trace runs on that copy.
+            let res_conv_infos: GLWELayout = GLWELayout {
+                n: res_infos.n(),
+                base2k: key_infos.base2k(),
+                k: res_infos.max_k(),
+                rank: res_infos.rank(),
+            };
+            let lvl_0: usize = GLWE::<Vec<u8>>::bytes_of_from_infos(&res_conv_infos);
+            let lvl_1: usize = self
+                .glwe_normalize_tmp_bytes()
+                .max(self.glwe_trace_assign_tmp_bytes_default(&res_conv_infos, key_infos));
+            return lvl_0 + lvl_1;
+        }
+
+        self.glwe_shift_tmp_bytes()
+            .max(self.glwe_automorphism_tmp_bytes(res_infos, res_infos, key_infos))
+    }
+
     fn glwe_trace_tmp_bytes_default<R, A, K>(&self, res_infos: &R, a_infos: &A, key_infos: &K) -> usize
     where
         R: GLWEInfos,
@@ -69,23 +94,21 @@ where
         assert_eq!(self.n() as u32, a_infos.n());
         assert_eq!(self.n() as u32, key_infos.n());
 
-        let lvl_0: usize = self.glwe_automorphism_tmp_bytes(res_infos, a_infos, key_infos);
-        if a_infos.base2k() != key_infos.base2k() {
-            let lvl_1: usize = VecZnx::bytes_of(
-                self.n(),
-                (key_infos.rank_out() + 1).into(),
-                res_infos.max_k().min(a_infos.max_k()).div_ceil(key_infos.base2k()) as usize,
-            ) + self.vec_znx_normalize_tmp_bytes();
-            return lvl_0 + lvl_1;
-        }
-
-        let lvl_1: usize = if res_infos.max_k() > a_infos.max_k() {
-            GLWE::<Vec<u8>>::bytes_of_from_infos(res_infos)
-        } else {
-            GLWE::<Vec<u8>>::bytes_of_from_infos(a_infos)
+        // Out-of-place: a working copy in the key's base2k holding max(a.k, res.k) bits,
+        // then the in-place trace on that copy (or a normalization into/out of it).
+        let tmp_infos: GLWELayout = GLWELayout {
+            n: res_infos.n(),
+            base2k: key_infos.base2k(),
+            k: a_infos.max_k().max(res_infos.max_k()),
+            rank: res_infos.rank(),
         };
+        let lvl_0: usize = GLWE::<Vec<u8>>::bytes_of_from_infos(&tmp_infos);
+        let lvl_1: usize = self
+            .glwe_normalize_tmp_bytes()
+            .max(self.glwe_trace_assign_tmp_bytes_default(&tmp_infos, key_infos));
 
-        lvl_0 + lvl_1
+        // Also covers the in-place form, queried as glwe_trace_tmp_bytes(res, res, key).
+        (lvl_0 + lvl_1).max(self.glwe_trace_assign_tmp_bytes_default(res_infos, key_infos))
     }
 
     fn glwe_trace_default<R, A, K, H>(&self, res: &mut R, skip: usize, a: &A, keys: &H, scratch: &mut Scratch<BE>)
@@ -144,10 +167,10 @@ where
         assert_eq!(ksk_infos.rank_in(), res.rank());
         assert_eq!(ksk_infos.rank_out(), res.rank());
         assert!(
-            scratch.available() >= self.glwe_trace_tmp_bytes_default(res, res, ksk_infos),
+            scratch.available() >= self.glwe_trace_assign_tmp_bytes_default(res, ksk_infos),
             "scratch.available(): {} < GLWETrace::glwe_trace_tmp_bytes: {}",
             scratch.available(),
-            self.glwe_trace_tmp_bytes_default(res, res, ksk_infos)
+            self.glwe_trace_assign_tmp_bytes_default(res, ksk_infos)
         );
 
         if res.base2k() != ksk_infos.base2k() {
